@@ -75,6 +75,10 @@ def gen_cmd(rng, k, script_mode):
         t = rng.choice(["vp_status 3 " + tag, "vp_nonexistent_cmd", "vp_io X %s > nodir/x" % tag,
                         "vp_io X %s < missing" % tag, "vp_io X %s 2>&1 > nodir/x" % tag, "vp_argv a %s | vp_nonexistent | vp_st snk %s" % (tag, tag)])
         return t, kind, ["t=" + t.split()[0]]
+    if rng.random() < 0.4:
+        # a builtin sent to the background still runs inside the shell: it must not give away the shell's descriptors
+        b = rng.choice(["alias &", "minfd &", "alias > f1 &", "alias nosuch &", "jobs &", "alias q=vp_b &"])
+        return b, "bg", ["builtin-bg"]
     return "vp_job B%d 0.05 %s &" % (k, tag), "bg", []
 
 
